@@ -3,6 +3,9 @@
 # files describe exactly what a fresh quick run produces
 cd /verif
 git -C /repo diff --quiet || { echo "/repo has uncommitted changes"; exit 1; }
+# the setup command of MANIFEST.json builds the WHOLE library (every module listed in lean/MdIt.lean): run it first,
+# so that a name clash between two theorem modules is seen here and not in a fresh sandbox
+./check --setup > work/setup.log 2>&1 || { echo "SETUP FAILED (see work/setup.log)"; tail -5 work/setup.log; exit 1; }
 for id in $(python3 -c "import json;print(' '.join(c['property_id'] for c in json.load(open('MANIFEST.json'))['checks']))"); do
   VERIF_SEED=1 VERIF_TIER=quick ./check $id --tier quick | tail -1
 done
